@@ -117,6 +117,9 @@ func TestWindowReference(t *testing.T) {
 			for j := 0; j < nev; j++ {
 				k := rapid.IntRange(0, 5).Draw(t, "kind")
 				amt := int64(rapid.IntRange(0, 9).Draw(t, "amt"))
+				if k == model.Rt && rapid.IntRange(0, 4).Draw(t, "longRt") == 0 { // a response time beyond a minute is recorded as it is
+					amt = int64(rapid.SampledFrom([]int{59999, 60000, 60001, 80000, 3600000}).Draw(t, "rt"))
+				}
 				if k == model.Conc {
 					arr.UpdateConcurrency(int32(amt))
 				} else {
